@@ -29,6 +29,7 @@ the events of call number `k` (the operation at position `k`).
 import TxdbusModel.Proofs.Obj.DispatchMain
 import TxdbusModel.Proofs.Obj.DispatchExt
 import TxdbusModel.Proofs.Obj.DispatchProps
+import TxdbusModel.Properties.C17
 
 namespace Txdbus.Obj
 
@@ -662,17 +663,72 @@ section PropsComposition
 
 open DispatchProps
 
-/-- THE COMPOSITION.  A call to `org.freedesktop.DBus.Properties` that expects a reply, on a path
-that is exported when the call arrives, to an object whose Properties interface is served by the
-library (`LibraryServes`), with the member's signature and arguments: the replies to the call,
-OBSERVED THE WAY C17 OBSERVES REPLIES (`obsMsg`: harness/c17.py `show_obs` / `err_cat`), are
-exactly one, and it is the outcome of C17's model - `Props.opGet` for Get (the variant's signature
-and value, or the error category), the reply part of `Props.opSet` for Set (C17's state moves to
-`(Props.opSet ..).1`, `DispatchProps.callStep`), `Props.opGetAll` for GetAll - up to `normOut`
-(the categories that only say "Python raised an exception" are one on the wire).
-The body of the reply is therefore no longer a parameter of the C10 model; with
-`reply_addressing` / `exactly_one_if_expected` the reply carries the call's serial and sender. -/
-theorem properties_call_reply_is_c17 (env : Env PV) (L : Lib) (henv : LibEnvOK env L) (st : Props.St)
+/-- WHAT THE DISPATCHER SENDS FOR A PROPERTIES CALL, EXACTLY (message level).  A call to
+`org.freedesktop.DBus.Properties` that expects a reply, on a path that is exported when the call
+arrives, to an object whose Properties interface is served by the library (`LibraryServes`), with
+the member's signature and arguments, whose library function behaves as C17's model says in state
+`st` (`libBehav L st c user`): the replies to the call are exactly `exactReply L c.serial c.sender out`
+- ONE message with the call's serial and sender, the member's reply signature and the value C17's
+model computed (Get: the variant's signature and value; GetAll: the dictionary in wire order; Set:
+the empty return), or the error `org.txdbus.PythonException.<Class>` with the exception's text -
+where `out` is `Props.opGet ..` / the reply part of `Props.opSet ..` / `Props.opGetAll ..`.
+The body of the reply is therefore no longer a parameter of the C10 model.
+
+`_partial`: this is a statement about ONE call under the hypothesis that the library function does
+what C17's code model says for a state `st` and a world `L.W` that the hypotheses do not connect to
+the history or to the exported object's class chain.  What closes the gap partly:
+`callStep_moves_c17_state` (when and how the state moves through the dispatcher),
+`get_through_dispatcher_returns_last_write` / `set_then_get_through_dispatcher` (C17's THEOREM
+`get_returns_last_write` carried through the dispatcher for a state that IS the result of a C17
+history).  What stays missing: a proof that `L.W` is the elaboration of the declarations of the very
+classes in `o.classes` (the two models describe one Python class chain from two sides - functions and
+interfaces with methods here, properties there; the correspondence stream `dispatch-properties`
+feeds both from the same real classes), and more than one class chain per world (C17's scope). -/
+theorem properties_call_reply_is_c17_partial (env : Env PV) (L : Lib) (henv : LibEnvOK env L) (st : Props.St)
+    (ex : Exports) (ops : List (Op PV)) (k : Nat) (c : Call PV)
+    (user : Nat → Outcome PV) (hk : ops[k]? = some (.call c (libBehav L st c user)))
+    (he : c.expectReply = true) (o : Obj) (ho : exported (exportsAt ex ops k) c.path = some o)
+    (hserve : LibraryServes o) (hi : c.iface = some propsName) :
+    (∀ i p, c.member = getMember → c.sig.getD [] = "ss".toList → c.body = [.str i, .str p] →
+      replies (eventsOf k (run env ex ops).2) =
+        exactReply L c.serial c.sender (Props.opGet L.cfg L.W st L.o i p)) ∧
+    (∀ i p v, c.member = setMember → c.sig.getD [] = "ssv".toList → c.body = [.str i, .str p, .val v] →
+      replies (eventsOf k (run env ex ops).2) =
+        exactReply L c.serial c.sender (replyOut (Props.opSet L.cfg L.W st L.o i p v).2)) ∧
+    (∀ i, c.member = getAllMember → c.sig.getD [] = "s".toList → c.body = [.str i] →
+      replies (eventsOf k (run env ex ops).2) =
+        exactReply L c.serial c.sender (Props.opGetAll L.cfg L.W st L.o i)) := by
+  obtain ⟨s1, s2, s3⟩ := hserve
+  refine ⟨?_, ?_, ?_⟩
+  · intro i p hm hsig hb
+    obtain ⟨m, hso, hr⟩ := replies_props_served env ex ops k c _ hk he o ho _ _ _ _ s1 hi hm hsig L _
+      (libBehav_get L st c user i p hb)
+    rw [hr, fireOutcome_exact env L henv _ _ (by
+      show sigFits m.sigOut _
+      rw [hso]; exact opGet_sigFits ..), if_pos (opGet_isReply ..)]
+    rfl
+  · intro i p v hm hsig hb
+    obtain ⟨m, hso, hr⟩ := replies_props_served env ex ops k c _ hk he o ho _ _ _ _ s2 hi hm hsig L _
+      (libBehav_set L st c user i p v hb)
+    rw [hr, fireOutcome_exact env L henv _ _ (by
+      show sigFits m.sigOut _
+      rw [hso]; exact opSet_sigFits ..), if_pos (opSet_isReply ..)]
+    rfl
+  · intro i hm hsig hb
+    obtain ⟨m, hso, hr⟩ := replies_props_served env ex ops k c _ hk he o ho _ _ _ _ s3 hi hm hsig L _
+      (libBehav_getAll L st c user i hb)
+    rw [hr, fireOutcome_exact env L henv _ _ (by
+      show sigFits m.sigOut _
+      rw [hso]; exact opGetAll_sigFits ..), if_pos (opGetAll_isReply ..)]
+    rfl
+
+/-- COROLLARY, in C17's vocabulary: the same replies OBSERVED THE WAY C17's HARNESS OBSERVES REPLIES
+(`obsMsg`: a Lean transcription of harness/c17.py `show_obs` / `err_cat` - return kind by signature,
+error category by name and text; the transcription itself is tied to nothing but the four error
+texts of the generated table) are `[some (normOut out)]`: C17's outcome up to the categories that only
+say "Python raised" (`noAttr` / `value`), which are one on the wire.  Weaker than the theorem above:
+serial, destination, the name and text of a `value` error and the Set body are not observed. -/
+theorem properties_reply_observed_as_c17 (env : Env PV) (L : Lib) (henv : LibEnvOK env L) (st : Props.St)
     (ex : Exports) (ops : List (Op PV)) (k : Nat) (c : Call PV)
     (user : Nat → Outcome PV) (hk : ops[k]? = some (.call c (libBehav L st c user)))
     (he : c.expectReply = true) (o : Obj) (ho : exported (exportsAt ex ops k) c.path = some o)
@@ -686,29 +742,58 @@ theorem properties_call_reply_is_c17 (env : Env PV) (L : Lib) (henv : LibEnvOK e
     (∀ i, c.member = getAllMember → c.sig.getD [] = "s".toList → c.body = [.str i] →
       (replies (eventsOf k (run env ex ops).2)).map obsMsg =
         [some (normOut (Props.opGetAll L.cfg L.W st L.o i))]) := by
-  obtain ⟨s1, s2, s3⟩ := hserve
+  obtain ⟨h1, h2, h3⟩ := properties_call_reply_is_c17_partial env L henv st ex ops k c user hk he o ho hserve hi
   refine ⟨?_, ?_, ?_⟩
   · intro i p hm hsig hb
-    obtain ⟨m, hso, hr⟩ := replies_props_served env ex ops k c _ hk he o ho _ _ _ _ s1 hi hm hsig L _
-      (libBehav_get L st c user i p hb)
-    rw [hr]
-    exact fireOutcome_obs env L henv _ _ (opGet_isReply ..) (by
-      show sigFits m.sigOut _
-      rw [hso]; exact opGet_sigFits ..)
+    rw [h1 i p hm hsig hb]; exact exactReply_obs L henv.vcls _ _ _ (opGet_isReply ..)
   · intro i p v hm hsig hb
-    obtain ⟨m, hso, hr⟩ := replies_props_served env ex ops k c _ hk he o ho _ _ _ _ s2 hi hm hsig L _
-      (libBehav_set L st c user i p v hb)
-    rw [hr]
-    exact fireOutcome_obs env L henv _ _ (opSet_isReply ..) (by
-      show sigFits m.sigOut _
-      rw [hso]; exact opSet_sigFits ..)
+    rw [h2 i p v hm hsig hb]; exact exactReply_obs L henv.vcls _ _ _ (opSet_isReply ..)
   · intro i hm hsig hb
-    obtain ⟨m, hso, hr⟩ := replies_props_served env ex ops k c _ hk he o ho _ _ _ _ s3 hi hm hsig L _
-      (libBehav_getAll L st c user i hb)
-    rw [hr]
-    exact fireOutcome_obs env L henv _ _ (opGetAll_isReply ..) (by
-      show sigFits m.sigOut _
-      rw [hso]; exact opGetAll_sigFits ..)
+    rw [h3 i hm hsig hb]; exact exactReply_obs L henv.vcls _ _ _ (opGetAll_isReply ..)
+
+/-- HOW C17's STATE MOVES THROUGH THE DISPATCHER (`DispatchProps.callStep`, the step the driver runs).
+For ANY call: the dispatcher's part is its ordinary step; C17's state afterwards is `libSet`'s when the
+call is dispatched to `_dbus_PropertySet` (`runsSet`) and UNCHANGED otherwise.  On an object the
+library serves: a Set call with signature `ssv` moves the state to `(Props.opSet ..).1` and sends
+`opSet`'s signals - whether or not a reply is expected, whatever `opSet` answers; Get and GetAll calls
+leave it alone; so does every call that fails the lookup (path not exported, other signature). -/
+theorem callStep_moves_c17_state (env : Env PV) (L : Lib) (s : State) (st : Props.St) (c : Call PV)
+    (user : Nat → Outcome PV) :
+    ((callStep env L s st c user).2.1 = if runsSet s.exports c then (libSet L st c.body).2.1 else st) ∧
+    (∀ o, exported s.exports c.path = some o → LibraryServes o → c.iface = some propsName →
+      (∀ i p v, c.member = setMember → c.sig.getD [] = "ssv".toList → c.body = [.str i, .str p, .val v] →
+        (callStep env L s st c user).2.1 = (Props.opSet L.cfg L.W st L.o i p v).1 ∧
+        (callStep env L s st c user).2.2.2 = signalsOf (Props.opSet L.cfg L.W st L.o i p v).2) ∧
+      (c.member = getMember → c.sig.getD [] = "ss".toList → (callStep env L s st c user).2.1 = st) ∧
+      (c.member = getAllMember → c.sig.getD [] = "s".toList → (callStep env L s st c user).2.1 = st)) ∧
+    ((∀ f m, verdict s.exports c ≠ .run f m) → (callStep env L s st c user).2.1 = st) := by
+  obtain ⟨_, _, h3, h4⟩ := callStep_state env L s st c user
+  obtain ⟨d1, d2, d3⟩ := lib_ids_distinct
+  refine ⟨h3, ?_, ?_⟩
+  · intro o ho hserve hi
+    refine ⟨?_, ?_, ?_⟩
+    · intro i p v hm hsig hb
+      obtain ⟨f, m, hv, hid, _, _⟩ := verdict_props s.exports c o _ _ _ _ ho hserve.2.1 hi hm hsig
+      have hrs : runsSet s.exports c = true := by simp [runsSet, hv, hid]
+      rw [h3, h4, hrs]
+      simp [libSet, hb]
+    · intro hm hsig
+      obtain ⟨f, m, hv, hid, _, _⟩ := verdict_props s.exports c o _ _ _ _ ho hserve.1 hi hm hsig
+      have hrs : runsSet s.exports c = false := by simp [runsSet, hv, hid, d1]
+      rw [h3, hrs]; rfl
+    · intro hm hsig
+      obtain ⟨f, m, hv, hid, _, _⟩ := verdict_props s.exports c o _ _ _ _ ho hserve.2.2 hi hm hsig
+      have hrs : runsSet s.exports c = false := by
+        have : ¬ (getAllId = setId) := fun h => d3 h.symm
+        simp [runsSet, hv, hid, this]
+      rw [h3, hrs]; rfl
+  · intro hno
+    have hrs : runsSet s.exports c = false := by
+      unfold runsSet
+      cases hv : verdict s.exports c with
+      | run f m => exact absurd hv (hno f m)
+      | _ => rfl
+    rw [h3, hrs]; rfl
 
 /-- Error names AS THE CODE GIVES THEM.  When C17's outcome of a Properties.Get call is one of the
 errors the code decides by itself - the object has no such property; the property is write-only -
@@ -789,8 +874,10 @@ theorem properties_set_getall_error_exact (env : Env PV) (L : Lib) (henv : LibEn
 /-- Properties calls that do not reach the library: on a path that is NOT exported when the call
 arrives the one event is the UnknownObject error - which C17 observes as `err unknownObject`, the
 answer of C17's own `step` for an object that was never exported; with a signature other than the
-member's declared one (`ss` / `ssv` / `s`) the one event is the InvalidArgs error and the library
-function does not run (nothing is read or written). -/
+member's declared one (`ss` / `ssv` / `s`) the one event is the InvalidArgs error OF THAT MEMBER
+(`invalidArgsErr c m`: the text names the call's and the member's signature) and the library function
+does not run (nothing is read or written).  (C17's `step` answers `err unknownObject` only for an object
+that was NEVER exported; after `unexportObject` it would still answer - see the seam `example` below.) -/
 theorem properties_lookup_errors (env : Env PV) (ex : Exports) (ops : List (Op PV))
     (k : Nat) (c : Call PV) (b : Nat → Outcome PV) (hk : ops[k]? = some (.call c b))
     (hi : c.iface = some propsName) :
@@ -799,9 +886,11 @@ theorem properties_lookup_errors (env : Env PV) (ex : Exports) (ops : List (Op P
       (replies (eventsOf k (run env ex ops).2)).map obsMsg = [some (.err .unknownObject)]) ∧
     (∀ o member id sigIn sigOut, exported (exportsAt ex ops k) c.path = some o →
       serves o member id sigIn sigOut = true → c.member = member → c.sig.getD [] ≠ sigIn →
-      ∃ (m : Method) (text : Str), eventsOf k (run env ex ops).2 =
-        [.sent (.err "org.freedesktop.DBus.Error.InvalidArgs".toList c.serial c.sender text)] ∧
-        m.sigIn = sigIn ∧ invocations (eventsOf k (run env ex ops).2) = []) := by
+      ∃ m : Method, m.sigIn = sigIn ∧
+        eventsOf k (run env ex ops).2 = [invalidArgsErr c m] ∧
+        (∃ text, (invalidArgsErr c m : Event PV) =
+          .sent (.err "org.freedesktop.DBus.Error.InvalidArgs".toList c.serial c.sender text)) ∧
+        invocations (eventsOf k (run env ex ops).2) = []) := by
   obtain ⟨n0, n1, n2, n3⟩ := propsName_not_builtin
   have hh : handledByHandler (exportsAt ex ops k) c = false := by
     simp [handledByHandler, isPair_false_of_iface c _ _ hi n1, isPair_false_of_iface c _ _ hi n2,
@@ -830,7 +919,7 @@ theorem properties_lookup_errors (env : Env PV) (ex : Exports) (ops : List (Op P
           simp [hmm]
         have hne : c.sig.getD [] ≠ m.sigIn := by rw [hs.1.1]; exact hsig
         obtain ⟨h1, text, h2⟩ := l3 o i m ho ha hne
-        refine ⟨m, text, by rw [h1, h2], hs.1.1, ?_⟩
+        refine ⟨m, hs.1.1, h1, ⟨text, h2⟩, ?_⟩
         rw [h1, h2]; rfl
 
 /-- WHEN the library serves the Properties interface (`LibraryServes`, the hypothesis of the composition
@@ -860,6 +949,77 @@ theorem builtin_table_shape :
     Gen.DispatchBuiltin.unexportedError = Gen.Dispatch.unknownObject.1 := by
   refine ⟨by decide, by decide, by decide, by decide, by decide, by decide, by decide, by decide, by decide,
     by decide, by decide⟩
+
+section EndToEnd
+
+open Txdbus.Obj.Props Txdbus.Obj.PropsSpec in
+/-- END TO END, with C17's THEOREM: Properties.Get THROUGH THE DISPATCHER returns the last value written.
+C17's side (hypotheses of `Txdbus.Properties.C17.get_returns_last_write`): declarations that elaborate,
+a sound configuration, a C17 history `h` (exports, local assignments, remote Set / Get / GetAll), after
+which instance `on` is attached and the specification holds value `v` - of the declared type - for the
+readable property `(i, p)`.  The dispatcher's side: the object is exported at the call's path when
+the call arrives, the library serves its Properties interface, the call is `Get(i, p)` with signature
+`ss` and expects a reply, and the library function runs in C17's state AFTER `h`.  Then the caller
+receives exactly one message: the method return of signature `v` carrying the variant `(sg, v.plain)`
+- with the call's serial, addressed to its sender - and `sg` is the declared signature for a basic type. -/
+theorem get_through_dispatcher_returns_last_write
+    {D : Decls} {W : World} (hD : elaborate D = some W) (hA : AttrConsistent W) (hM : Modelled W)
+    {cfg : Cfg} (hc : cfg.Sound) {h : List Props.Op} (hg : GoodHist h)
+    (on : Nat) (i p : Dispatch.Str) (hi0 : i ≠ []) (hatt : (specRun cfg W h).attached on = true)
+    {sp : SProp} (hsp : (sdeclOf W).find i p = some sp) (hr : sp.readable = true)
+    {v : Props.PVal} (hv : (specRun cfg W h).val on i p = some v) (ht : HasTypeSig sp.sig v = true)
+    (env : Env PV) (vexc : Exc) (henv : LibEnvOK env ⟨cfg, W, on, vexc⟩)
+    (ex : Exports) (ops : List (Dispatch.Op PV)) (k : Nat) (c : Call PV) (user : Nat → Outcome PV)
+    (hk : ops[k]? = some (.call c (libBehav ⟨cfg, W, on, vexc⟩ (Props.run cfg W h) c user)))
+    (he : c.expectReply = true) (o : Obj) (ho : exported (exportsAt ex ops k) c.path = some o)
+    (hserve : LibraryServes o) (hi : c.iface = some propsName) (hm : c.member = getMember)
+    (hsig : c.sig.getD [] = "ss".toList) (hb : c.body = [.str i, .str p]) :
+    ∃ sg, replies (eventsOf k (Dispatch.run env ex ops).2) =
+        [.ret c.serial c.sender (some "v".toList) (.vals [.variant sg v.plain])] ∧
+      (IsBasic sp.sig = true → sg = sp.sig) := by
+  obtain ⟨sg, hstep, hbasic⟩ :=
+    Txdbus.Properties.C17.get_returns_last_write hD hA hM hc hg on i p hi0 hatt hsp hr hv ht
+  refine ⟨sg, ?_, hbasic⟩
+  have hget : Props.opGet cfg W (Props.run cfg W h) on i p = .retV sg v.plain := by
+    unfold Props.step at hstep
+    by_cases hmem : on ∈ (Props.run cfg W h).attached
+    · simp only [hmem, if_true, Prod.mk.injEq, List.cons.injEq, and_true, true_and] at hstep
+      exact hstep
+    · simp [hmem] at hstep
+  have := (properties_call_reply_is_c17_partial env ⟨cfg, W, on, vexc⟩ henv (Props.run cfg W h) ex ops k c
+    user hk he o ho hserve hi).1 i p hm hsig hb
+  rw [this]
+  simp only [hget, exactReply]
+  have : Gen.DispatchBuiltin.getReplySig.toList = "v".toList := by decide
+  rw [this]
+
+theorem props_run_snoc (cfg : Props.Cfg) (W : Props.World) (h : List Props.Op) (op : Props.Op) :
+    Props.run cfg W (h ++ [op]) = (Props.step cfg W (Props.run cfg W h) op).1 := by
+  unfold Props.run
+  generalize Props.St.init = st
+  induction h generalizing st with
+  | nil => rfl
+  | cons a t ih => simp only [List.cons_append, Props.runFrom]; exact ih _
+
+/-- SET THEN GET, both through the dispatcher.  C17's state is the result of a history `h` in which
+instance `on` is attached; a Properties.Set call (any `expectReply`, also NO_REPLY_EXPECTED) on an
+object the library serves moves the state the driver threads (`callStep`) to C17's state after
+`h ++ [set on i p v]`; a later Get call dispatched in that state is answered as C17's theorems say for
+THAT history (`get_through_dispatcher_returns_last_write` with `h ++ [set ..]`). -/
+theorem set_then_get_through_dispatcher (env : Env PV) (cfg : Props.Cfg) (W : Props.World) (h : List Props.Op)
+    (on : Nat) (vexc : Exc) (hatt : on ∈ (Props.run cfg W h).attached)
+    (s : State) (c : Call PV) (user : Nat → Outcome PV) (o : Obj)
+    (ho : exported s.exports c.path = some o) (hserve : LibraryServes o) (hi : c.iface = some propsName)
+    (i p : Dispatch.Str) (v : Props.PVal) (hm : c.member = setMember) (hsig : c.sig.getD [] = "ssv".toList)
+    (hb : c.body = [.str i, .str p, .val v]) :
+    (callStep env ⟨cfg, W, on, vexc⟩ s (Props.run cfg W h) c user).2.1 =
+      Props.run cfg W (h ++ [.set on i p v]) := by
+  have := ((callStep_moves_c17_state env ⟨cfg, W, on, vexc⟩ s (Props.run cfg W h) c user).2.1 o ho hserve hi).1
+    i p v hm hsig hb
+  rw [this.1, props_run_snoc]
+  simp [Props.step, hatt]
+
+end EndToEnd
 
 namespace Example
 
@@ -910,6 +1070,30 @@ theorem properties_witness :
 
 example : LibraryServes Example.propObj := by decide
 
+/-- the composition theorem applied to the witness history (k = 0): its hypotheses are jointly satisfiable -/
+example :
+    replies (eventsOf 0 (run Example.propEnv Example.propExports
+      [.call (Example.getCall "v") (libBehav Example.propLib Example.propSt (Example.getCall "v") fun _ => .deferred)]).2) =
+    exactReply Example.propLib 9 (some ":1.7".toList)
+      (Props.opGet Props.Cfg.repaired Example.propWorld Example.propSt 0 "org.p".toList "v".toList) :=
+  (properties_call_reply_is_c17_partial Example.propEnv Example.propLib
+    { enc := fun _ _ _ => rfl, fix := rfl, valid := fun _ => rfl, vname := rfl, vcls := by decide }
+    Example.propSt Example.propExports _ 0 (Example.getCall "v") (fun _ => .deferred) rfl rfl
+    Example.propObj (by decide) (by decide) rfl).1 "org.p".toList "v".toList rfl (by decide) rfl
+
+/-- THE SEAM between the two models, checkable: after `unexportObject('/p')` the dispatcher answers a
+Properties.Get with UnknownObject, while C17's own `step` - whose `attached` is never undone - would still
+answer with the value. -/
+example :
+    ((run Example.propEnv Example.propExports
+        [.unexportObj "/p".toList,
+         .call (Example.getCall "v") (libBehav Example.propLib Example.propSt (Example.getCall "v") fun _ => .deferred)]
+      |>.2).filterMap (fun e => match e.2 with | .sent (.err n _ _ _) => some n | _ => none)) =
+      ["org.freedesktop.DBus.Error.UnknownObject".toList] ∧
+    (Props.step Props.Cfg.repaired Example.propWorld Example.propSt (.get 0 "org.p".toList "v".toList)).2 =
+      [.retV ['s'] (.str "hello".toList)] := by
+  decide
+
 /-- the structural condition holds for the example's user class (it has no attributes and one interface `org.p`) -/
 example : ∀ c ∈ [({ ifaces := some [{ name := "org.p".toList, methods := [] }], attrs := [] } : Class)],
     LeavesPropsAlone c := by
@@ -929,7 +1113,7 @@ example : ¬ LibraryServes { classes := [{ ifaces := none, attrs := [("dbus_Get"
                                          baseClass] } := by decide
 
 example : LibEnvOK Example.propEnv Example.propLib :=
-  { enc := fun _ _ => rfl, fix := rfl, valid := fun _ => rfl, vname := rfl, vcls := by decide }
+  { enc := fun _ _ _ => rfl, fix := rfl, valid := fun _ => rfl, vname := rfl, vcls := by decide }
 
 end PropsComposition
 
@@ -1068,7 +1252,12 @@ end Txdbus.Obj
 #print axioms Txdbus.Obj.isPair_unique
 #print axioms Txdbus.Obj.builtin_reply
 #print axioms Txdbus.Obj.builtin_witness
-#print axioms Txdbus.Obj.properties_call_reply_is_c17
+#print axioms Txdbus.Obj.properties_call_reply_is_c17_partial
+#print axioms Txdbus.Obj.properties_reply_observed_as_c17
+#print axioms Txdbus.Obj.callStep_moves_c17_state
+#print axioms Txdbus.Obj.get_through_dispatcher_returns_last_write
+#print axioms Txdbus.Obj.props_run_snoc
+#print axioms Txdbus.Obj.set_then_get_through_dispatcher
 #print axioms Txdbus.Obj.properties_get_error_exact
 #print axioms Txdbus.Obj.properties_set_getall_error_exact
 #print axioms Txdbus.Obj.properties_lookup_errors
